@@ -102,6 +102,28 @@ def C09(tier, seed):
                            "at every recorded tick price, one unit either side, MIN/MAX and random interior prices; thorough tier enumerates every tick"}
 
 
+def C07(tier, seed):
+    return hist_plan(["C07"], tier, seed, tokens=("spl", "t22"), models=("MC_Ledger",),
+                     must={"swap": 50, "update_fees_and_rewards": 5, "decrease_liquidity": 20, "increase_liquidity": 20},
+                     explanation="ghost share ledgers: per swap step the exact pro-rata share (2^128-scaled interval) of every position whose range contains the segment tick; "
+                                 "credited fees (increments of owed) never exceed the share and fall short by at most one unit per step/credit; accumulators start anywhere in u128; "
+                                 "toy instance: FeeUpper/FeeLower with accumulators started just below wrap-around")
+
+
+def C11(tier, seed):
+    drivers = []
+    for tk in ("spl", "t22"):
+        if tier == "quick":
+            drivers += hist_jobs(f"hist_rw_{tk}_", seed, 4, 4, 200, tk, ["--rewards", "1"])
+        else:
+            drivers += hist_jobs(f"hist_rw_{tk}_", seed, 8, 40, 300, tk, ["--rewards", "1"])
+    return {"active": ["C11"], "drivers": drivers, "models": [],
+            "must_exercise": {"set_reward_emissions": 5, "collect_reward": 5, "initialize_reward": 3, "update_fees_and_rewards": 10, "swap": 20},
+            "explanation": "AccrueRewards (floor(dt*emissions/liquidity), nothing at zero liquidity / uninitialized / 128-bit overflow, timestamp monotone) checked on every instruction; "
+                           "reward share ledgers (upper bound, bounded-rounding lower bound, dropped credits relax the lower bound only); collect = min(owed, vault); "
+                           "set-emissions settles at the old rate and needs one day of funding"}
+
+
 _C06, _C08 = C06, C08
 
 
@@ -118,4 +140,4 @@ def C08(tier, seed):
     return p
 
 
-PLANS = {"C01": C01, "C02": C02, "C03": C03, "C05": C05, "C06": C06, "C08": C08, "C09": C09}
+PLANS = {"C01": C01, "C02": C02, "C03": C03, "C05": C05, "C06": C06, "C07": C07, "C11": C11, "C08": C08, "C09": C09}
